@@ -116,14 +116,16 @@ class MAUPITIConv2d(nn.Conv2d, MAUPITIModule):
         # self._zero_point = self.add_bias
         if not self.skip_requant:
             with torch.no_grad():
+                # the offset of the (signed) input activations depends on the input precision,
+                # the one of the output activations on the output precision
                 self._zero_point = (self.add_bias + (self.clip_inf * 2**self.shift) -
-                                    self.clip_inf * self.scale *
+                                    self.in_clip_inf * self.scale *
                                     torch.sum(self.weight, dim=(1, 2, 3)
                                               ).view(1, self.out_channels, 1, 1))
         else:
             with torch.no_grad():
                 self._zero_point = (self.bias -
-                                    self.clip_inf *
+                                    self.in_clip_inf *
                                     torch.sum(self.weight, dim=(1, 2, 3)
                                               ).view(1, self.out_channels, 1, 1))
 
@@ -133,7 +135,7 @@ class MAUPITIConv2d(nn.Conv2d, MAUPITIModule):
         if self.padding == 'valid':
             self.pad = nn.ConstantPad2d(0, 0)
         else:
-            self.pad = nn.ConstantPad2d(self.padding[0], self.clip_inf)
+            self.pad = nn.ConstantPad2d(self.padding[0], self.in_clip_inf)
 
     def forward(self, input: torch.Tensor) -> torch.Tensor:
         """The forward function of integer conv2d layer.
@@ -191,6 +193,12 @@ class MAUPITIConv2d(nn.Conv2d, MAUPITIModule):
     def clip_inf(self):
         # Define ReLU inferior extreme
         return torch.tensor(-2 ** (self.out_quantizer.precision - 1),
+                            device=self.device)
+
+    @property
+    def in_clip_inf(self):
+        # Inferior extreme (i.e., offset) of the input activations
+        return torch.tensor(-2 ** (self.in_quantizer.precision - 1),
                             device=self.device)
 
     @property
